@@ -99,6 +99,14 @@ def run(chk, facts):
         chk.ob("R-C13-3", f"derive:{name}", ok,
                f"`{name}` is an order-preserving map of `relative_paths` ({meths})" if ok else
                f"`{name}` is derived from `relative_paths` through {bad or 'nothing'}: the i-th output no longer belongs to the i-th input", loc)
+    # .. and none of the lists that are paired by position is re-ordered or shortened in place after it was derived
+    REORDER = {"sort", "sort_by", "sort_by_key", "sort_unstable", "sort_unstable_by", "sort_unstable_by_key", "sort_by_cached_key", "reverse", "dedup", "dedup_by", "dedup_by_key",
+               "retain", "remove", "swap", "swap_remove", "truncate", "pop", "insert", "rotate_left", "rotate_right", "drain", "clear", "split_off"}
+    paired = {"in_absolute_paths", "out_absolute_paths", "sources", "source_pairs", "source_option_pairs", "mamba_source"}
+    muts = [(src(strip(n_["recv"])), n_["m"]) for n_ in walk(tdf["body"]) if n_.get("k") == "mcall" and n_["m"] in REORDER and src(strip(n_["recv"])) in paired]
+    chk.ob("R-C13-3", "paired-lists-not-reordered", not muts, "the lists that are paired by position are not re-ordered or shortened in place" if not muts else
+           f"`{muts[0][0]}.{muts[0][1]}(..)` re-orders or shortens one of the lists that are paired by position: unless every other list is changed in exactly the same way "
+           "(same key, same comparison), the i-th translation is written to another file's path", loc)
     # the write loop: zip of the results with out_absolute_paths, with_extension("py")
     loops = [n_ for n_ in walk(tdf["body"]) if n_.get("k") == "for" and "write_source" in src(n_["body"])]
     ok = len(loops) == 1
